@@ -831,3 +831,9 @@ package mail
 // C06 (continued): the From header shows the From address when one is set and the envelope-from otherwise
 //@ pred hasaddr(m *mail.Msg, k string) = (k in m.addrHeader) && len(m.addrHeader[k]) > 0
 //@ at mail.msgWriter.writeMsg netmail.Address.String#1 before assert[C06:from-header-source] arg0 == (hasaddr(msg, "From") ? msg.addrHeader["From"][0] : msg.addrHeader["EnvelopeFrom"][0])
+
+// C03 (continued): between DATA and end-of-data the writer is written to by Msg.WriteTo and by nothing else
+//@ ghost field afterrender int
+//@ at mail.Client.sendSingleMsg mail.Msg.WriteTo#1 before assert[C03:nothing-before-the-message] as(writer, "*smtp.dataCloser").dwrites == 0
+//@ at mail.Client.sendSingleMsg mail.Msg.WriteTo#1 after ghost[C03:g] world.afterrender = as(writer, "*smtp.dataCloser").dwrites
+//@ at mail.Client.sendSingleMsg io.Closer.Close#1 before assert[C03:nothing-after-the-message] as(writer, "*smtp.dataCloser").dwrites == world.afterrender
